@@ -38,8 +38,16 @@ def perm_st(draw, seq):
 
 
 @st.composite
-def arms_st(draw, kinds=("int", "str", "float"), min_size=1, max_size=5):
+def arms_st(draw, kinds=("int", "str", "float"), min_size=1, max_size=5, many_ok=False):
     kind = draw(st.sampled_from(list(kinds)))
+    if many_ok and draw(st.integers(0, 29)) == 0:
+        # a catalogue-sized arm list (more arms than numpy's small-count code paths cover, e.g. np.choose's 64)
+        n = draw(st.sampled_from([33, 64, 65, 70]))
+        if kind == "str":
+            return kind, ["item%d" % i for i in range(n)]
+        if kind == "float":
+            return kind, [i + 0.5 for i in range(n)]
+        return ("int" if kind == "mix" else kind), list(range(100, 100 + n))
     pool = POOLS[kind]
     if kind == "float" and draw(st.integers(0, 4)) == 0:
         pool = FLOAT_CLOSE_POOL
@@ -223,8 +231,8 @@ ALL_NP = [None, "Radius", "KNearest", "LSHNearest", "Clusters", "TreeBandit"]
 @st.composite
 def config_st(draw, lps=ALL_LP, nps=ALL_NP, arm_kinds=("int", "str", "float"), min_arms=1, max_arms=4,
               deterministic=False, with_binarizer=False, scale_ok=False, prob_ok=True, defaults_ok=False,
-              n_jobs_choices=(1,), seeds=None, lam_min=0.01, tree_parallel_ok=False, metrics=None):
-    kind, arms = draw(arms_st(arm_kinds, min_arms, max_arms))
+              n_jobs_choices=(1,), seeds=None, lam_min=0.01, tree_parallel_ok=False, metrics=None, many_arms_ok=False):
+    kind, arms = draw(arms_st(arm_kinds, min_arms, max_arms, many_ok=many_arms_ok))
     npn = draw(st.sampled_from(list(nps)))
     lp_names = [n for n in lps if not (npn == "TreeBandit" and n not in TREE_COMPATIBLE)]
     lp = draw(lp_st(lp_names, arms, deterministic, lam_min, with_binarizer, scale_ok))
